@@ -176,6 +176,26 @@ def run_cli(case, timeout=120):
         ex = G.EXPRS[cfg["expr"]]
         if ex["text"]:
             args.append("--tags=%s" % ex["text"])
+        if cfg.get("wip"):
+            args.append("--wip")
+        if cfg.get("loglevel"):
+            args.append("--logging-level=%s" % cfg["loglevel"])
+        if cfg.get("logfilter"):
+            args.append("--logging-filter=%s" % cfg["logfilter"])
+        if cfg.get("logclear"):
+            args.append("--logging-clear-handlers")
+        if cfg.get("names") is not None:
+            # --name: one anchored pattern per selected scenario (names from a parse of the rendered texts)
+            import re
+            from behave.parser import parse_feature
+            name_of = {}
+            for fi, (fn, text) in enumerate(R.files):
+                for sc in parse_feature(text, filename=fn).walk_scenarios(with_outlines=False):
+                    name_of[R.by_loc.get((fi, sc.line), 0)] = sc.name
+            for sid in cfg["names"]:
+                args += ["--name", "^%s$" % re.escape(name_of[sid])]
+            if not cfg["names"]:
+                args += ["--name", "^no such scenario$"]
         args += [os.path.join("features", fn) for fn, _t in R.files]
         env = dict(os.environ)
         env["PYTHONPATH"] = REPO + os.pathsep + env.get("PYTHONPATH", "")
